@@ -200,6 +200,37 @@ fn built_operands() -> (u64, Vec<Violation>) {
             }
         }
     }
+    // two built operands against each other: every ordered pair of shapes, == and !=
+    let owns: Vec<Variable> = SHAPES.iter().map(|s| eval(&interp, &format!("x := 1; {s}")).expect("C19 shape")).collect();
+    for (i, s1) in SHAPES.iter().enumerate() {
+        for (j, s2) in SHAPES.iter().enumerate() {
+            let eq = content_eq(&owns[i], &owns[j]);
+            let want = format!("({eq}, {})", !eq);
+            for (form, text, args) in [
+                ("run-time-components", format!("f := (x: int) -> any {{ return ({s1} == {s2}, {s1} != {s2}) }}"), vec![Variable::Int(1)]),
+                ("any-typed-components", format!("f := (x: any) -> any {{ return ({s1} == {s2}, {s1} != {s2}) }}"), vec![Variable::Int(1)]),
+                ("two-parameters", format!("f := (x: int, y: int) -> any {{ return ({s1} == {}, {s1} != {}) }}", s2.replace('x', "y"), s2.replace('x', "y")), vec![Variable::Int(1), Variable::Int(1)]),
+            ] {
+                n += 1;
+                let got = match eval(&interp, &text) {
+                    Ok(Variable::Function(f)) => match call(&f, args) {
+                        Ok(v) => canon(&v),
+                        Err(e) => e,
+                    },
+                    // operands of unrelated static types may be rejected by the checker (and `x * 2` on any is)
+                    Err(e) if e.starts_with("rejected") && !(i == j && form == "run-time-components") => continue,
+                    Ok(other) => format!("not a function: {}", canon(&other)),
+                    Err(e) => e,
+                };
+                if got != want {
+                    out.push(Violation {
+                        sig: format!("C19|built-operands|pair|{form}|{s1} ; {s2}"),
+                        detail: json!({"kind": "host_call", "program": text, "args": ["1"], "expected": want, "observed": got}),
+                    });
+                }
+            }
+        }
+    }
     (n, out)
 }
 
